@@ -210,7 +210,16 @@ class Interp:
             pa, pb = self.class_params(a), self.class_params(b)
             if set(pa) != set(pb):
                 return False
-            return sym.And(*[sym.eq(pa[k], pb[k]) for k in pa])
+            from . import ops
+
+            conds = []
+            for k in pa:
+                x, y = pa[k], pb[k]
+                if sym.is_intlike(x) and sym.is_intlike(y):
+                    conds.append(sym.eq(x, y))
+                else:
+                    conds.append(ops.identical(self, x, y))
+            return sym.And(*conds)
         return False
 
     def base_kind(self, c):
@@ -612,8 +621,12 @@ class Interp:
                     frame.nonlocals.update(n.names)
                 elif isinstance(n, ast.Global):
                     frame.globals_decl.update(n.names)
-                elif isinstance(n, (ast.Yield, ast.YieldFrom, ast.Await)) and self._owner_def(fnode, n):
-                    self.outside("generator / coroutine body", n)
+                elif isinstance(n, ast.Yield) and self._owner_def(fnode, n):
+                    # generator: run eagerly, the call yields the list of produced
+                    # values (assumption: the consumer exhausts it, no interleaving)
+                    frame.yields = []
+                elif isinstance(n, (ast.YieldFrom, ast.Await)) and self._owner_def(fnode, n):
+                    self.outside("yield from / await body", n)
             params = fnode.args
             if params.args or params.posonlyargs:
                 first = (params.posonlyargs + params.args)[0].arg
@@ -621,7 +634,11 @@ class Interp:
             try:
                 self.exec_block(fnode.body, frame)
             except _Return as r:
+                if getattr(frame, "yields", None) is not None:
+                    return frame.yields
                 return r.value
+            if getattr(frame, "yields", None) is not None:
+                return frame.yields
             return None
         finally:
             self.depth -= 1
@@ -961,9 +978,10 @@ class Interp:
     def s_For(self, s, frame):
         frame.loop_ordinal += 1
         spec = LOOP_INVARIANTS.get((frame.func_name, frame.loop_ordinal))
-        it = self.eval(s.iter, frame)
         if spec is not None:
+            it = self.eval(s.iter, frame) if getattr(spec, "eval_iterable", True) else None
             return self.loop_with_invariant(s, frame, spec, kind="for", iterable=it)
+        it = self.eval(s.iter, frame)
         items = self.iterate(it, s)
         for x in items:
             self.assign(s.target, x, frame)
@@ -1218,6 +1236,15 @@ class Interp:
 
         rec(0)
         return out
+
+    def e_Yield(self, e, frame):
+        f = frame
+        while f is not None and getattr(f, "yields", None) is None:
+            f = f.enclosing
+        if f is None:
+            self.outside("yield outside generator frame", e)
+        f.yields.append(self.eval(e.value, frame) if e.value is not None else None)
+        return None
 
     def e_Starred(self, e, frame):
         self.outside("starred expression", e)
